@@ -1696,6 +1696,40 @@ impl VirtualFileSystem for Memfs {
         let dst_root = self._abs(&guard, dst)?;
         let copy_into = self._is_dir(&guard, &dst_root);
 
+        // Validate the source and destination before changing anything
+        let src_is_dir = match guard.get_entry(&src_root) {
+            Some(x) => x.is_dir() && !x.is_symlink(),
+            None => return Err(PathError::does_not_exist(src_root).into()),
+        };
+        let dst_final = if copy_into { dst_root.mash(src_root.base()?) } else { dst_root.clone() };
+        if dst_final == src_root {
+            return Ok(());
+        }
+        if dst_final.starts_with(&src_root) || src_root.starts_with(&dst_final) {
+            return Err(PathError::dir_does_not_match_parent(dst_final).into());
+        }
+        let dst_dir = dst_final.dir()?;
+        match guard.get_entry(&dst_dir) {
+            Some(x) if x.is_dir() && !x.is_symlink() => {},
+            Some(_) => return Err(PathError::is_not_dir(dst_dir).into()),
+            None => return Err(PathError::does_not_exist(dst_dir).into()),
+        }
+        if let Some(x) = guard.get_entry(&dst_final) {
+            if x.is_dir() && !x.is_symlink() {
+                if !src_is_dir {
+                    return Err(PathError::is_not_dir(src_root).into());
+                } else if x.files.as_ref().map_or(false, |y| !y.is_empty()) {
+                    return Err(PathError::dir_contains_files(dst_final).into());
+                }
+            } else if src_is_dir {
+                return Err(PathError::is_not_dir(dst_final).into());
+            }
+
+            // Replace the destination
+            guard.remove_file(&dst_final);
+            guard.remove_entry(&dst_final);
+        }
+
         let mut paths = vec![src_root.clone()];
         while let Some(src_path) = paths.pop() {
             let dst_path = if copy_into {
